@@ -56,7 +56,7 @@ MANIFEST = {
              "headers linked, NewChainService succeeds; chain validity proper is C01/C03. The interleaving of "
              "goroutines inside the real Stop is whatever the Go scheduler does (moments: immediately / parked / "
              "seeded delay / held after a step), the model side is exhaustive."
-             " Slices: specs/BatchWriter (AddItem, batch-full and ticker flush, PutItems failing, Stop with the final flush) and specs/ConcQueue (chanutils.ConcurrentQueue) bound to the real structures under virtual time; their coverage is merged into this check's evidence.",
+             " Slices: specs/UtxoScan with Stop at every gate of a scan in flight over long stretches of non-matching / matching heights: the number of environment calls the real batch manager makes after Stop (exact in the gated driver, independent of machine load) is bounded by a constant independent of the heights left (StopBoundedWork, StopReturnsDuringScan); specs/BatchWriter (AddItem, batch-full and ticker flush, PutItems failing, Stop with the final flush) and specs/ConcQueue (chanutils.ConcurrentQueue) bound to the real structures under virtual time; their coverage is merged into this check's evidence.",
         design="4 C17", technique="TLA+ composite spec + TLC liveness under fairness + scenarios from model states "
                                  "replayed on a real ChainService + TLC-judged observed traces + trace inclusion in the exported graph"),
 }
@@ -626,6 +626,10 @@ def _tm(what, t):
 
 def run(prop_id, tier, seed, replay=None):
     t0 = time.time()
+    if replay:
+        from . import utxoscan
+        if utxoscan.is_my_replay(replay):       # a saved trace of the UTXO-scan slice (it carries its chain table)
+            return utxoscan.run_slice_c17(tier, seed, replay=replay)[0]
     rng = random.Random(seed)
     cfg = config(tier, seed)
     sc = core.scratch("sd")
@@ -759,6 +763,12 @@ def run(prop_id, tier, seed, replay=None):
             rc3, cov3 = concqueue.run_slice("C17", tier, seed)
             concqueue.merge_evidence("C17", cov3)
             rc = max(rc, rc2, rc3)
+            # Stop with a UTXO scan in flight (specs/UtxoScan with Stop at every gate of the scan, chains with
+            # long stretches of non-matching / matching heights; notes/utxoscan.md section 9): the number of
+            # environment calls the real batch manager makes after Stop is bounded independently of the
+            # heights left (StopBoundedWork), Stop returns (StopReturnsDuringScan)
+            from . import utxoscan
+            rc = utxoscan.merge_slice_c17(tier, seed, rc)
         return rc
     finally:
         shutil.rmtree(sc, ignore_errors=True)
